@@ -1,3 +1,157 @@
-From UV Require Import Base.Common Model.Public Model.GoCH Proofs.PublicP.
-Theorem C31_stub : True. Proof. exact I. Qed.
-Print Assumptions C31_stub.
+(* C31 — public views of handshake messages convert losslessly.
+   Property theorems only; each closed by a lemma from Proofs/PublicP.v or Proofs/GoCHP*.v.
+   State of the files: they model the UNCHANGED code (no fix was needed). *)
+From Coq Require Import String.
+From UV Require Import Base.Common Model.Public Model.GoCH Proofs.PublicP Proofs.GoCHP Proofs.GoCHP2 Proofs.GoCHP3.
+Open Scope N_scope.
+
+(* ---- ClientHello view: public -> private -> public keeps every field that has a counterpart
+   (all but the cache pointer); the two rebuilt slices keep their elements (an empty non-nil slice comes back nil). *)
+Theorem C31_client_hello_pub_priv_pub : forall c p c', CH_getPrivatePtr (Some c) = Some (p, c') ->
+  exists c2, ch_getPublicPtr (Some p) = Some c2 /\ CH_view c2 = CH_view c /\ CH_view c' = CH_view c /\
+             CH_cachedPrivateHello c2 = Some p /\ CH_cachedPrivateHello c' = Some p.
+Proof. exact CH_pub_priv_pub. Qed.
+Print Assumptions C31_client_hello_pub_priv_pub.
+
+(* private -> public -> private keeps every field but [extensions], which is reset *)
+Theorem C31_client_hello_priv_pub_priv : forall m, exists c, ch_getPublicPtr (Some m) = Some c /\
+  forall p c', CH_getPrivatePtr (Some c) = Some (p, c') -> ch_view p = ch_view m /\ ch_extensions p = [].
+Proof. exact ch_priv_pub_priv. Qed.
+Print Assumptions C31_client_hello_priv_pub_priv.
+
+(* whole-record identity unless a rebuilt slice is empty but not nil *)
+Theorem C31_client_hello_exact : forall c, CH_KeyShares c <> Some [] -> CH_PskIdentities c <> Some [] ->
+  ch_getPublicPtr (Some (CH_private_of c)) = Some (CH_set_cached c (Some (CH_private_of c))).
+Proof. exact CH_pub_priv_pub_exact. Qed.
+Print Assumptions C31_client_hello_exact.
+
+(* ---- ServerHello view ---- *)
+Theorem C31_server_hello_pub_priv_pub : forall s, sh_getPublicPtr (SH_getPrivatePtr s) = s.
+Proof. exact SH_pub_priv_pub. Qed.
+Print Assumptions C31_server_hello_pub_priv_pub.
+Theorem C31_server_hello_priv_pub_priv : forall s,
+  option_map sh_view (SH_getPrivatePtr (sh_getPublicPtr s)) = option_map sh_view s.
+Proof. exact sh_priv_pub_priv. Qed.
+Print Assumptions C31_server_hello_priv_pub_priv.
+(* the three private fields without counterpart come back zero *)
+Theorem C31_server_hello_not_copied : forall s,
+  option_map (fun m => (sh_supportedPoints m, sh_encryptedClientHello m, sh_serverNameAck m))
+             (SH_getPrivatePtr (sh_getPublicPtr (Some s))) = Some ([], [], false).
+Proof. exact sh_not_copied. Qed.
+Print Assumptions C31_server_hello_not_copied.
+
+(* ---- CertificateRequestMsgTLS13 (for any marshal function): every field but Raw / original ---- *)
+Theorem C31_certreq_pub_priv_pub : forall mar c, option_map CR_view (cr_toPublic mar (CR_toPrivate c)) = option_map CR_view c.
+Proof. exact CR_pub_priv_pub. Qed.
+Print Assumptions C31_certreq_pub_priv_pub.
+Theorem C31_certreq_priv_pub_priv : forall mar c, option_map cr_view (CR_toPrivate (cr_toPublic mar c)) = option_map cr_view c.
+Proof. exact cr_priv_pub_priv. Qed.
+Print Assumptions C31_certreq_priv_pub_priv.
+(* Raw is not carried: it is re-marshalled from the other fields; original is dropped *)
+Theorem C31_certreq_raw_not_carried : forall mar c p,
+  option_map CR_Raw (cr_toPublic mar (CR_toPrivate (Some c))) =
+    Some (match mar (CR_OcspStapling c) (CR_Scts c) (CR_SupportedSignatureAlgorithms c)
+                    (CR_SupportedSignatureAlgorithmsCert c) (CR_CertificateAuthorities c) with Some r => r | None => [] end)
+  /\ option_map cr_original (CR_toPrivate (cr_toPublic mar (Some p))) = Some None.
+Proof. intros mar c p. split; [apply CR_raw_is_remarshalled|apply cr_original_dropped]. Qed.
+Print Assumptions C31_certreq_raw_not_carried.
+
+(* ---- key shares, PSK identities, ticket keys (list-mapped) ---- *)
+Theorem C31_key_shares : forall s k,
+  elems (keyShares_ToPublic (KeyShares_ToPrivate s)) = elems s /\ elems (KeyShares_ToPrivate (keyShares_ToPublic k)) = elems k /\
+  (s <> Some [] -> keyShares_ToPublic (KeyShares_ToPrivate s) = s).
+Proof. intros s k. split; [apply KeyShares_pub_priv_pub|split; [apply keyShares_priv_pub_priv|apply KeyShares_exact]]. Qed.
+Print Assumptions C31_key_shares.
+Theorem C31_psk_identities : forall s k,
+  elems (pskIdentities_ToPublic (PskIdentities_ToPrivate s)) = elems s /\ elems (PskIdentities_ToPrivate (pskIdentities_ToPublic k)) = elems k /\
+  (s <> Some [] -> pskIdentities_ToPublic (PskIdentities_ToPrivate s) = s).
+Proof. intros s k. split; [apply PskIdentities_pub_priv_pub|split; [apply pskIdentities_priv_pub_priv|apply PskIdentities_exact]]. Qed.
+Print Assumptions C31_psk_identities.
+Theorem C31_ticket_keys : forall T t s k,
+  tk_ToPublic (TK_ToPrivate T) = T /\ TK_ToPrivate (tk_ToPublic t) = t /\
+  elems (ticketKeys_ToPublic (TicketKeys_ToPrivate s)) = elems s /\ elems (TicketKeys_ToPrivate (ticketKeys_ToPublic k)) = elems k.
+Proof. intros. repeat split; [apply tk_pp|apply tk_qq|apply TicketKeys_pub_priv_pub|apply ticketKeys_priv_pub_priv]. Qed.
+Print Assumptions C31_ticket_keys.
+(* the nil-ness caveat is real: the empty non-nil slice is the one value that does not come back identical *)
+Theorem C31_empty_slice_becomes_nil : keyShares_ToPublic (KeyShares_ToPrivate (Some [])) = None.
+Proof. reflexivity. Qed.
+Print Assumptions C31_empty_slice_becomes_nil.
+
+(* ---- cipher-suite and key views: whole-record identities ---- *)
+Theorem C31_suite_and_key_views : forall c3 c3' cs cs' kp kp' km km',
+  c3_toPublic (C3_toPrivate c3) = c3 /\ C3_toPrivate (c3_toPublic c3') = c3' /\
+  cs_getPublicObj (CS_getPrivatePtr (Some cs)) = cs /\ CS_getPrivatePtr (Some (cs_getPublicObj (Some cs'))) = Some cs' /\
+  kp_ToPublic (KP_ToPrivate kp) = kp /\ KP_ToPrivate (kp_ToPublic kp') = kp' /\
+  km_ToPublic (KM_ToPrivate km) = km /\ KM_ToPrivate (km_ToPublic km') = km'.
+Proof.
+  intros. repeat split; [apply C3_pub_priv_pub|apply c3_priv_pub_priv|apply CS_pub_priv_pub|apply cs_priv_pub_priv|
+    apply KP_pub_priv_pub|apply kp_priv_pub_priv|apply KM_pub_priv_pub|apply km_priv_pub_priv].
+Qed.
+Print Assumptions C31_suite_and_key_views.
+
+(* ---- FinishedHash (not in the property's list; what holds): every hash/buffer/version field; Prfv2 when set; a non-nil prf ---- *)
+Theorem C31_finished_hash : forall f g,
+  FH_view (fh_getPublicObj (FH_getPrivateObj f)) = FH_view f /\
+  (forall p, FH_Prfv2 f = Some p -> FH_Prfv2 (fh_getPublicObj (FH_getPrivateObj f)) = Some p) /\
+  (fh_prf g <> None -> FH_getPrivateObj (fh_getPublicObj g) = g).
+Proof. intros f g. split; [apply FH_pub_priv_pub|split; [apply FH_prfv2_kept|apply fh_priv_pub_priv]]. Qed.
+Print Assumptions C31_finished_hash.
+
+(* ---- the explicit list of fields without counterpart (from the field tables the runner compares with reflect) ---- *)
+Local Open Scope string_scope.
+Theorem C31_fields_without_counterpart : without_counterpart =
+  [("ClientHello", (["cachedPrivateHello"], ["extensions"]));
+   ("ServerHello", ([], ["supportedPoints"; "encryptedClientHello"; "serverNameAck"]));
+   ("CertReq13", (["Raw"], ["original"]));
+   ("FinishedHash", (["Prf"], []))].
+Proof. exact without_counterpart_is. Qed.
+Print Assumptions C31_fields_without_counterpart.
+Local Close Scope string_scope.
+
+(* ---- UnmarshalClientHello followed by Marshal reproduces the input exactly.  Trivially so: unmarshal stores the input
+   in [original] and marshal returns [original] whenever it is set — for ANY field values (second theorem). ---- *)
+Theorem C31_unmarshal_marshal_raw : forall b c, UnmarshalClientHello b = Some c -> Marshal c = Ok b.
+Proof. exact unmarshal_marshal_raw. Qed.
+Print Assumptions C31_unmarshal_marshal_raw.
+Theorem C31_marshal_ignores_fields_while_raw_set : forall c raw, CH_Raw c = Some raw -> Marshal c = Ok raw.
+Proof. exact marshal_returns_raw. Qed.
+Print Assumptions C31_marshal_ignores_fields_while_raw_set.
+(* with Raw cleared, Marshal is marshalMsg(false) of the field values *)
+Theorem C31_marshal_when_raw_cleared : forall c, Marshal (CH_clear_raw c) = marshalMsg (CH_private_of (CH_clear_raw c)).
+Proof. exact marshal_cleared. Qed.
+Print Assumptions C31_marshal_when_raw_cleared.
+
+(* ---- clear Raw, marshal, parse again: same field values.  PARTIAL: proved for every view whose field values are
+   well-formed (wf_msgb, a decidable predicate that the correspondence run evaluates on the result of every accepted
+   parse) and whose re-marshal succeeds; that unmarshal only produces well-formed values is observed, not proved. ---- *)
+Theorem C31_reparse_stable_partial : forall c b',
+  wf_msgb (CH_private_of (CH_clear_raw c)) = true -> Marshal (CH_clear_raw c) = Ok b' ->
+  exists c', UnmarshalClientHello b' = Some c' /\ CH_values c' = CH_values c /\ CH_Raw c' = Some b'.
+Proof. exact reparse_pub_checked. Qed.
+Print Assumptions C31_reparse_stable_partial.
+(* the private-level statement it rests on: marshalMsg then unmarshal returns every field *)
+Theorem C31_marshal_unmarshal : forall m b, wf_msg m -> marshalMsg m = Ok b ->
+  exists m', unmarshal b = Some m' /\ ch_fields m' = ch_fields m /\ ch_original m' = Some b /\
+             ch_extensions m' = map ext_id (present m).
+Proof. exact marshal_unmarshal. Qed.
+Print Assumptions C31_marshal_unmarshal.
+
+(* ---- non-vacuity ---- *)
+Definition ex_hello : PubClientHelloMsg := {|
+  CH_Raw := Some [9; 9]; CH_Vers := 771; CH_Random := repeat 7 32; CH_SessionId := [1; 2; 3]; CH_CipherSuites := [4865; 49195; 255];
+  CH_CompressionMethods := [0]; CH_NextProtoNeg := false; CH_ServerName := [97; 46; 98]; CH_OcspStapling := true; CH_Scts := true;
+  CH_Ems := true; CH_SupportedCurves := [29; 23]; CH_SupportedPoints := [0]; CH_TicketSupported := true; CH_SessionTicket := [5; 6];
+  CH_SupportedSignatureAlgorithms := [1027; 2052]; CH_SecureRenegotiation := []; CH_SecureRenegotiationSupported := true;
+  CH_AlpnProtocols := [[104; 50]; [104; 116; 116; 112]]; CH_SupportedSignatureAlgorithmsCert := [1025]; CH_SupportedVersions := [772; 771];
+  CH_Cookie := [1]; CH_KeyShares := Some [{| KS_Group := 29; KS_Data := repeat 3 32 |}]; CH_EarlyData := true; CH_PskModes := [1];
+  CH_PskIdentities := Some [{| PI_Label := [8; 8]; PI_ObfuscatedTicketAge := 4000000000 |}]; CH_PskBinders := [repeat 1 32];
+  CH_QuicTransportParameters := Some []; CH_cachedPrivateHello := None; CH_encryptedClientHello := [254; 13] |}.
+Example C31_ex_wf : wf_msgb (CH_private_of (CH_clear_raw ex_hello)) = true.
+Proof. vm_compute. reflexivity. Qed.
+Example C31_ex_reparse : exists b c', Marshal (CH_clear_raw ex_hello) = Ok b /\ UnmarshalClientHello b = Some c' /\
+  CH_values c' = CH_values ex_hello.
+Proof. vm_compute. eexists. eexists. repeat split. Qed.
+Example C31_ex_raw : Marshal ex_hello = Ok [9; 9].
+Proof. reflexivity. Qed.
+Example C31_ex_pub_priv_pub : exists p c', CH_getPrivatePtr (Some ex_hello) = Some (p, c') /\ ch_extensions p = [].
+Proof. eexists. eexists. split; reflexivity. Qed.
